@@ -6,7 +6,7 @@ RULE = ('cases = crash-free multi-user histories with heavy content overlap (ide
         'unchanged data by the same or a shared-key user, concurrent snapshot pairs, deletes, cleans); after every command: chunk objects '
         '== chunks referenced by remaining snapshots (lifted state, also compared with Model/Repo.exec), uploaded names == missing names, '
         'a repeat of present data uploads nothing, no storage name shared across families; non-trivial = >= 3 commands of >= 2 kinds')
-WEIGHTS = {'snapshot': 4, 'repeat': 4, 'pair': 1, 'delete': 2, 'clean': 1, 'observe': 1}
+WEIGHTS = {'snapshot': 4, 'repeat': 4, 'pair': 1, 'delete': 2, 'clean': 1, 'observe': 1, 'flaky_gc': 1}
 CHECKS = {'dedup'}
 MINE = ('not_exact', 'upload_set', 'repeat_uploaded_payload', 'table_dup', 'family_alias', 'exception', 'unknown_object')
 
